@@ -41,6 +41,13 @@ def enumerated(tier, seed):
     for p in (a, b):
         for qs in ([b], [a], [c, b], [d, a, b], [a, a], [c, d]):
             yield dict(p=p, qs=qs, fresh=True)
+    # the same list-element spellings bound to different values in different programs
+    e = [" ORG $0E00\n", "E0 EQU $28\n", " NOP \n", "L0 RMB 8\n", " FDB L0+2,E0*2,0\n", " FCB E0,1,E0+1\n"]
+    f = [" ORG $3000\n", "L0 FDB L0+2,E0*2,0\n", "E0 EQU $10\n", " FCB E0,1,E0+1\n"]
+    g = [" ORG $0E00\n", "E0 EQU 7\n", " FDB L0+2,E0*2,0\n", " FOO \n", "L0 NOP \n"]
+    for p in (e, f):
+        for qs in ([f], [e], [g], [g, f, e]):
+            yield dict(p=p, qs=qs, fresh=False)
 
 
 def searches(tier):
